@@ -233,15 +233,14 @@ func nDuels(tier string) int {
 	if tier == "thorough" {
 		return nDuelCombos
 	}
-	return 36
+	return 6 * 4 * 6 // every prologue x A x B; epilogue order and strictness drawn per case
 }
 
 func run(c *harness.Case) {
 	if nd := nDuels(c.Tier); c.Index < nd {
 		combo := c.Index
-		if nd < nDuelCombos { // stratified sample of the combination space
-			stride := nDuelCombos / nd
-			combo = c.Index*stride + c.R.Intn(stride)
+		if nd < nDuelCombos {
+			combo = c.Index + nd*c.R.Intn(nDuelCombos/nd)
 		}
 		runDuel(c, combo)
 		return
@@ -273,7 +272,7 @@ func main() {
 			if tier == "thorough" {
 				return nDuels(tier) + 600
 			}
-			return nDuels(tier) + 24
+			return nDuels(tier) + 16
 		},
 		Setup: func(tier string) error {
 			logrus.SetLevel(logrus.PanicLevel)
